@@ -6,6 +6,7 @@
 -/
 import Cider.Model.TablesSpec
 import Cider.Model.TablesGen
+import Cider.Spec.Defs
 open Cider
 
 def ratStr (q : Rat) : String := s!"{q.num}/{q.den}"
@@ -39,30 +40,25 @@ def parseGroupTok (t : String) : Option (List PyMember) :=
     | 's' :: rest => PyMember.str (unhex6 rest)
     | _ => PyMember.nonStr))
 
-/-- permutant built from a reduced candidate and the parent's residues (`__permutant_from_reduced_seq`) -/
-def permutantFromReduced (T : Tables) (cand : Pattern) (parent : Seq) : Seq :=
-  let pos := parent.filter (fun a => a = AA.R ∨ a = AA.K)
-  let neg := parent.filter (fun a => a = AA.D ∨ a = AA.E)
-  let neu := parent.filter (fun a => ¬ (a = AA.D ∨ a = AA.E ∨ a = AA.R ∨ a = AA.K))
-  let rec go : Pattern → List AA → List AA → List AA → List AA
-    | [], _, _, _ => []
-    | c :: cs, ps, ns, us =>
-      if 0 < c then match ps with
-        | x :: ps' => x :: go cs ps' ns us
-        | [] => go cs ps ns us
-      else if c < 0 then match ns with
-        | x :: ns' => x :: go cs ps ns' us
-        | [] => go cs ps ns us
-      else match us with
-        | x :: us' => x :: go cs ps ns us'
-        | [] => go cs ps ns us
-  let _ := T
-  go cand pos neg neu
-
 def lagVec (p : Pattern) : List Int := (List.range p.length).tail.map (fun d => lagSum p d)
+
+/-- all distinct arrangements of a composition (driver-only helper for the exhaustive arg-max oracle) -/
+partial def arrangements : Nat → Nat → Nat → List Pattern
+  | 0, 0, 0 => [[]]
+  | a, b, c =>
+    (if a > 0 then (arrangements (a - 1) b c).map ((1 : Int) :: ·) else []) ++
+    (if b > 0 then (arrangements a (b - 1) c).map ((-1 : Int) :: ·) else []) ++
+    (if c > 0 then (arrangements a b (c - 1)).map ((0 : Int) :: ·) else [])
+
+/-- the true delta-maximising arrangement by exhaustive search (first maximiser) -/
+def trueArgmax (a b c : Nat) : Rat × Pattern :=
+  (arrangements a b c).foldl (fun (acc : Rat × Pattern) p => let d := delta p; if acc.1 < d then (d, p) else acc) (-1, [])
 
 def handle (T : Tables) (line : String) : String :=
   match (line.trimAscii.toString.splitOn " ").filter (· ≠ "") with
+  | ["argmax", a, b, c] =>
+    let r := trueArgmax a.toNat! b.toNat! c.toNat!
+    s!"argmax {ratStr r.1} {patStr r.2} {ratStr (dmaxComp a.toNat! b.toNat! c.toNat!)}"
   | "q" :: name :: seqTok :: args =>
     match Seq.ofChars? seqTok.toList with
     | none => "bad-op seq"
@@ -75,9 +71,13 @@ def handle (T : Tables) (line : String) : String :=
       | "dmax", [] => outRat (seqDmax T s)
       | "dmaxperm", [] =>
         match dmaxArg p with
-        | none => s!"perm {ratStr (seqDmax T s)} none"
-        | some c => s!"perm {ratStr (seqDmax T s)} {patStr c} {(permutantFromReduced T c s).toString}"
+        | none => s!"perm {ratStr (seqDmax T s)} - {s.toString}"
+        | some c => s!"perm {ratStr (seqDmax T s)} {patStr c} {(permutantFromReduced c s).toString}"
       | "sigma", [] => outRat (seqSigma T s)
+      | "specdelta", [] => outRat (Spec.delta p)
+      | "specsigma", [] => outRat (Spec.sigmaDef p)
+      | "specdmax", [] => outRat (Spec.dmaxDef (countPos p) (countNeg p) (countNeut p))
+      | "specregion", [] => s!"int {Spec.regionDef (countPos p) (countNeg p) p.length}"
       | "pattern", [] => "str " ++ patStr p
       | "omega", [] => outRat (omega T s)
       | "omegaseq", [] => "str " ++ omegaSeq T s
@@ -105,6 +105,7 @@ def handle (T : Tables) (line : String) : String :=
       | "ppii", ["kallenbach"] => outRat (ppii T.ppiiK s)
       | "mw", [] => outRat (molWeight T s)
       | "lag", [] => "ints" ++ String.join ((lagVec p).map (fun i => s!" {i}"))
+      | "scd", [] => s!"scdlag {p.length}" ++ String.join ((lagVec p).map (fun i => s!" {i}"))
       | _, _ => "bad-op " ++ name
   | [] => ""
   | _ => "bad-op"
